@@ -97,7 +97,7 @@ class Trace:
         r = self.root
         k = r[0]
         if k == "param":
-            base = "param:%s" % (r[2] or r[1])
+            base = "param#%s" % r[1]
         elif k == "upvar":
             base = "upvar:%s" % r[1]
         elif k == "const":
@@ -367,9 +367,45 @@ def _trace0(body, x, through_casts=True, extra_transparent=(), max_steps=64):
                     return Trace(("const", a), fields, variants, steps, casts)
                 place = a.place
                 continue
+            # a private helper that hands back (a conversion of) one of its parameters, e.g.
+            # `fn be_u16(b: &[u8]) -> u16 { u16::from_be_bytes(b.try_into().unwrap()) }` under the caller's transparency set
+            pi = _passthrough_param(body.facts, d, through_casts, extra_transparent)
+            if pi is not None and pi - 1 < len(d.args):
+                a = d.args[pi - 1]
+                if a.kind == "const":
+                    return Trace(("const", a), fields, variants, steps, casts)
+                place = a.place
+                continue
             return Trace(("call", d), fields, variants, steps, casts)
         return Trace(("other", d), fields, variants, steps, casts)
     return Trace(("deep",), fields, variants, steps, casts)
+
+
+_PASS_MEMO = {}
+_PASS_BUSY = set()
+
+
+def _passthrough_param(facts, call, through_casts, extra_transparent):
+    """index of the parameter a crate-local fn returns unchanged (through the caller's transparent callees), else None"""
+    if not call.j.get("res_local") or not call.resolved:
+        return None
+    key = (id(facts), call.resolved, bool(through_casts), tuple(sorted(extra_transparent)))
+    if key in _PASS_MEMO:
+        return _PASS_MEMO[key]
+    if key in _PASS_BUSY:
+        return None
+    hb = facts.body(call.resolved)
+    res = None
+    if hb is not None and hb.kind != "closure" and len(hb.blocks) <= 12:
+        _PASS_BUSY.add(key)
+        try:
+            t = _trace0(hb, Place({"l": 0, "p": []}), through_casts, extra_transparent, 32)
+        finally:
+            _PASS_BUSY.discard(key)
+        if t.kind == "param" and not t.fields and not t.variants:
+            res = t.root[1]
+    _PASS_MEMO[key] = res
+    return res
 
 
 def receiver_field(body, call, argi=0):
@@ -391,9 +427,13 @@ def value_sources(body, x, depth=0, seen=None, through=VALUE_PRESERVING):
         out.add(("field", t.last_field))
         return out
     if k == "param":
-        out.add(("param", t.root[2] or t.root[1]))
+        out.add(("param", t.root[1]))
     elif k == "upvar":
-        out.add(("upvar", t.root[1]))
+        o = upvar_origin(body, t.root[1])
+        if o is not None and o[0] == "param":
+            out.add(("upvar-param", o[1]))
+        else:
+            out.add(("upvar", t.root[1]))
     elif k == "const":
         c = t.root[1]
         out.add(("const", c.const_item or c.scalar))
@@ -424,3 +464,37 @@ def value_sources(body, x, depth=0, seen=None, through=VALUE_PRESERVING):
             elif d.kind == "call":
                 out.add(("call", d.resolved))
     return out
+
+
+def upvar_origin(body, name):
+    """where does a captured variable come from?  ('param', index, fn body) if it is a parameter of an enclosing fn/closure,
+    ('local', local index, that body) if it is a local of an enclosing body; None if not found.  Names are used only as the
+    link between the closure and its parent (both are renamed together), never as an anchor."""
+    facts = body.facts
+    anc = facts.body(body.parent) if body.parent else None
+    while anc is not None:
+        for i, l in enumerate(anc.locals):
+            if l["name"] == name:
+                if anc.is_param(i):
+                    # the closure environment itself is param 1 of a closure body: user params start at 2 there
+                    return ("param", i, anc)
+                # `async fn` bodies re-bind every captured parameter to a local of the same name first
+                from .facts import Place as _P
+                t = trace(anc, _P({"l": i, "p": []}))
+                if t.kind == "upvar" and not t.fields and anc.parent:
+                    up = upvar_origin(anc, t.root[1])
+                    if up is not None:
+                        return up
+                return ("local", i, anc)
+        anc = facts.body(anc.parent) if anc.parent else None
+    return None
+
+
+def upvar_trace(body, name):
+    """Trace of the captured variable's value in the body that owns it (None if it is not a single-definition local / param)"""
+    o = upvar_origin(body, name)
+    if o is None:
+        return None
+    kind, idx, owner = o
+    from .facts import Place
+    return trace(owner, Place({"l": idx, "p": []}))
